@@ -233,28 +233,16 @@ def run(ctx):
         run.bad("C01.R7", "no-rejection-in-domain", "lonlat_to_cell no longer takes (LonLat, resolution): %s - cannot state the domain" % lty, w)
     else:
         eng7.summary(L2C, dom)
-        # the lookup under the stated domain and everything it calls, with the arguments it calls it with (the engine may
-        # hold other contexts of the same functions, e.g. with unconstrained arguments for a struct-field invariant)
-        reach7 = {(L2C, dom)}
-        grown = True
-        while grown:
-            grown = False
-            for k_, cs_ in eng7.callers.items():
-                if k_ not in reach7 and any((cp_, ca_) in reach7 for cp_, ca_, _s in cs_):
-                    reach7.add(k_)
-                    grown = True
-        # two rejections stay the business of other properties and are not asked of the interval analysis here:
-        # serialize's "position too large" (s < 4^n is C17's bijection; C14 discharges it at the thorough tier) and the
-        # CRS vertex lookup, which is Err only if a float-built corner misses every reference vertex by 1e-5 (C15 / C18)
-        SER7, CRSGV = "a5::core::serialization::serialize", "a5::projections::crs::CRS::get_vertex"
-        deep7 = 0
         for key7, c7 in list(eng7.ctxs.items()):
-            if len(key7) != 2 or key7 not in reach7:
+            if len(key7) != 2 or key7[0] not in (L2C, EST):
                 continue
-            if key7[0] == CRSGV:
+            # only the lookup under the stated domain and the estimates it asks for (the engine may hold other contexts
+            # of the same functions, e.g. with unconstrained arguments for a struct-field invariant)
+            if key7[0] == L2C and key7 != (L2C, dom):
+                continue
+            if key7[0] == EST and not any((cp_, ca_) == (L2C, dom) for cp_, ca_, _s in eng7.callers.get(key7, ())):
                 continue
             f7 = c7.ft
-            deep7 += 1
             for b7 in sorted(f7.cfg.reach):
                 if f7.blocks[b7].get("cleanup"):
                     continue
@@ -266,13 +254,11 @@ def run(ctx):
                         t7 = f7.rvalue(rv7, b7, f7.blocks[b7]["stmts"].index(st7))
                         if t7[0] == "agg" and t7[3] and any(x[0] == "payload" and x[1] == "Err" for x in walk(t7[3][0])):
                             continue
-                        if key7[0] == SER7 and any(x[0] == "field" and str(x[2]) == "s" for e7 in f7.conditions(b7) for x in walk(e7[0])):
-                            continue
                         nerr += 1
                         if c7.block_live(b7):
                             live_err.append("%s:%s" % (key7[0].split("::")[-1], (st7.get("span") or {}).get("line")))
         run.inst("C01.R7", "no-rejection-in-domain", not live_err,
-                 "%d explicit error results in lonlat_to_cell and the %d calling contexts below it (estimate, projection, triangle caches, encoder), reachable for latitude in [-90,90], finite longitude, resolution 0..29: %s" % (nerr, deep7, sorted(set(live_err)) or "none"), w)
+                 "%d explicit error results in lonlat_to_cell / lonlat_to_estimate, reachable for latitude in [-90,90], finite longitude, resolution 0..29: %s" % (nerr, sorted(set(live_err)) or "none"), w)
 
     # ---- R8: every probe of the spiral is looked at: the probe list gets one entry per spiral index (no entry is filtered
     # out by its coordinates - a query given as lon +- 360 must see the same neighbourhood) and every entry is estimated
